@@ -480,6 +480,7 @@ func (p *Parser) parseProviderArgument(pkg *packages.Package, kessokuPackageScop
 		build.Providers = append(build.Providers, &ProviderSpec{
 			ASTExpr:           arg,
 			Type:              ProviderTypeFunction,
+			IsVariadic:        result.IsVariadic,
 			Provides:          result.Provides,
 			Requires:          result.Requires,
 			IsReturnError:     result.IsReturnError,
@@ -499,6 +500,7 @@ type parseProviderTypeResult struct {
 	IsReturnError bool
 	IsAsync       bool
 	IsStruct      bool
+	IsVariadic    bool
 }
 
 func (p *Parser) parseProviderType(pkg *packages.Package, providerType types.Type, varPool *VarPool) (*parseProviderTypeResult, error) {
@@ -591,6 +593,7 @@ func (p *Parser) parseProviderType(pkg *packages.Package, providerType types.Typ
 			IsReturnError: isReturnError,
 			IsAsync:       false,
 			IsStruct:      false,
+			IsVariadic:    providerFnSig.Variadic(),
 		}, nil
 	case "structProvider":
 		if typeArgs.Len() < 1 {
